@@ -129,6 +129,11 @@ func (c *Csv[T]) ReadFromReader(reader io.Reader) <-chan *T {
 					continue
 				}
 
+				if column.ColumnIndex >= len(record) {
+					c.Logger.Error("Row has fewer fields than expected.", "fields", len(record))
+					return
+				}
+
 				err := setReflectValue(rowValue.Field(column.FieldIndex),
 					record[column.ColumnIndex], column.Format)
 				if err != nil {
